@@ -21,8 +21,9 @@ def readFn : Sexp → Option Fn
     | _, _, _, _ => none
   | _ => none
 
-def readConsts (cs : List Sexp) : M (Option (List Const)) := do
+def readConsts (cs : List Sexp) : M (Option (List Const × Array FnObj)) := do
   let mut out : List Const := []
+  let mut fobjs : Array FnObj := #[]
   let mut k := 0
   for c in cs do
     match c with
@@ -32,12 +33,12 @@ def readConsts (cs : List Sexp) : M (Option (List Const)) := do
       | none => return none
     | other =>
       match readFn other with
-      | some f => do
-          let r ← alloc (.cfn k [])
-          out := .fn f r :: out
+      | some f =>
+          out := .fn f fobjs.size :: out
+          fobjs := fobjs.push (k, [])
       | none => return none
     k := k + 1
-  return some out.reverse
+  return some (out.reverse, fobjs)
 
 def readGlobals (n : Nat) (gs : List Sexp) : M (Option (Array Value)) := do
   let mut arr : Array Value := Array.replicate n .undef
@@ -58,14 +59,14 @@ def handleVM : List Sexp → String
   | [fuel, keep, maxAllocs, ng, .list gs, .list cs, mainFn] =>
     match fuel.asNat?, keep.asNat?, maxAllocs.asInt?, ng.asNat?, readFn mainFn with
     | some fuel, some keep, some maxAllocs, some ng, some main =>
-      let setup : M (Option (Array Value × List Const)) := do
+      let setup : M (Option (Array Value × List Const × Array FnObj)) := do
         match ← readGlobals ng gs, ← readConsts cs with
-        | some g, some c => pure (some (g, c))
+        | some g, some (c, fo) => pure (some (g, c, fo))
         | _, _ => pure none
       match setup.run {} with
-      | .ok (some (globals, consts), heap) =>
+      | .ok (some (globals, consts, fobjs), heap) =>
         let code : Code := { main := main, consts := consts.toArray }
-        let (out, log) := run code keep fuel (maxAllocs + 1) ⟨initCore globals, {}, heap⟩ {}
+        let (out, log) := run code keep fuel (maxAllocs + 1) ⟨initCore globals fobjs, {}, heap⟩ {}
         let tail := s!"{log.steps} {log.counted} {log.sum}"
         match out with
         | .halted cfg =>
@@ -78,6 +79,11 @@ def handleVM : List Sexp → String
           | .unsupported w => "unsupported " ++ atomize w
           | .excluded w => "excluded " ++ atomize w
           | .fuel => "fuel"
+        | .fault ft _ =>
+          match ft with
+          | .unknownOpcode op => "rerr #" ++ hexOfString s!"unknown opcode: {op}" ++ " " ++ tail ++ " " ++ showTrace log
+          | .notFunction _ => "rerr #" ++ hexOfString "not function: compiled-function" ++ " " ++ tail ++ " " ++ showTrace log
+          | other => "panic #" ++ hexOfString (reprStr other) ++ " " ++ tail ++ " " ++ showTrace log
         | .limit _ => "rerr #" ++ hexOfString allocLimitText ++ " " ++ tail ++ " " ++ showTrace log
         | .outOfFuel _ => "fuel"
       | _ => "bad-op setup"
